@@ -28,16 +28,22 @@ func lexOps(k int) []oper.Operator {
 		ops = append(ops, userOp("::"), userOp(":="))
 	case 4:
 		ops = append(ops, userOp("?."), userOp("??"), userOp("..."))
+	case 5:
+		// the one operator character outside ASCII (U+02C6, two bytes)
+		ops = append(ops, userOp(".ˆ"), userOp("?ˆ"), userOp("ˆ"), userOp("ˆˆ."))
 	}
 	return ops
 }
 
+const nLexOps = 6
+
 func isSymbolicOp(k string) bool { return !oper.IsIdentOp(k) }
 
-var specialRunes = []string{"é", "晓", " ", " ", "�"}
+var specialRunes = []string{"é", "晓", "\u00a0", "\u2028", "\ufffd", "ˆ"}
 
-// anyInput: n positions, each a symbolic ASCII byte or one of five concrete
-// non-ASCII runes.
+// anyInput: n positions, each a symbolic ASCII byte or one of six concrete
+// non-ASCII runes (a letter, a CJK letter, two Unicode spaces, U+FFFD and the
+// non-ASCII operator character ˆ).
 func anyInput(n int) string {
 	s := ""
 	for p := 0; p < n; p++ {
@@ -145,7 +151,7 @@ func lexLen() int {
 // partition it with exact positions, longest-match operators and whole-word
 // keywords - for every operator table of the catalogue.
 func H09_lex() {
-	ops := lexOps(sv.Choice("ops", 5))
+	ops := lexOps(sv.Choice("ops", nLexOps))
 	n := 1 + sv.Choice("len", lexLen())
 	src := anyInput(n)
 	var toks []*token.Token
@@ -178,7 +184,7 @@ var litCases = []litCase{
 // tokens, is read as a single token of its kind.
 func H09_literals() {
 	c := litCases[sv.Choice("case", len(litCases))]
-	ops := lexOps(sv.Choice("ops", 5))
+	ops := lexOps(sv.Choice("ops", nLexOps))
 	ctx := sv.Choice("context", 3)
 	src := c.src
 	idx := 0
@@ -209,7 +215,7 @@ func H09_literals() {
 // words, longest match, positions after embedded newlines).
 func H09_suffix() {
 	heads := []string{"true", "false", "and", "not", "or", "as", "1", "1.", "0x", "\"a", "`a", "'a", "a", ".", "?", "=", "=="}
-	ops := lexOps(sv.Choice("ops", 5))
+	ops := lexOps(sv.Choice("ops", nLexOps))
 	head := heads[sv.Choice("head", len(heads))]
 	src := head + anyInput(1+sv.Choice("len", 2))
 	if sv.Choice("trailer", 2) == 1 {
